@@ -152,4 +152,19 @@ PROPS = {
         "text": "Safety at every step: every document B shows is a state A has shown. Bounded liveness: after the last fault, with B reachable and no further writes, within 2*max(retry interval)+60 s of simulated time B's documents equal A's. The bound comes from the configuration the plan chose.",
         "note": "A's replicator status and retry table at the end are recorded as probes, not demanded. Trusted: SimTransport keeps the two guarantees DefraDB relies on (content-verified blocks, access filter consulted).",
     },
+    "C12": {
+        "engine": "E2", "level": "fault_enumeration", "design_ref": "DESIGN.md §5 C12",
+        "technique": "deterministic simulation with a byzantine transport fault: every single-field tampering of every signed commit (and of its signature block) is delivered through the real receive path to a receiver that has not seen the genuine commit",
+        "rule": ("histories of 3-8 signed writes (create/update/delete, secp256k1 or ed25519 author). For every commit: VerifySignature with the author's key, another key of the same type and a key of the other type; then 14 tamperings "
+                 "(priority, docID, schema version, status, head replaced/dropped/added, link replaced by a forged field block / renamed / dropped, encryption link, signature value / type / identity as a new signature block) "
+                 "each checked in memory and pushed to the receiver with the signature attached; finally the genuine commit is pushed and must merge. distinct_nontrivial = distinct (tampering, commit kind) pairs delivered"),
+        "real_vs_stub": ("real: signing on write, DB.VerifySignature, net server pushLogHandler -> processPushlog -> syncDAG/loadBlockLinks (VerifyBlockSignature) -> merge via the event bus; "
+                         "stub: the RPC and the block exchange (SimTransport; forged blocks are served by a third 'forger' node; blocks are content-verified as bitswap does)"),
+        "assumptions": ASSUME_COMMON + ["out of scope as the statement does not cover them: a commit whose signature was stripped, a commit re-signed consistently with another key"],
+        "probes": ["signatures_verified", "tampered_pushes", "tampered_pushes_rejected_by_rpc", "genuine_pushes_merged"],
+        "quick": {"count": 4, "budget_s": 60, "workers": 16},
+        "thorough": {"count": 100000, "budget_s": 1200, "workers": 16},
+        "text": "The tampering list is enumerated completely for every commit of every generated history (fault enumeration over the fields of the block and of its signature block); histories and key types are sampled. Oracle: after quiescence the receiver's documents, commits and heads are what they were before the forged push; the genuine commit verifies and merges.",
+        "note": "Whether the RPC itself returned an error is recorded, not demanded. Changing only the type label of the signature block is not required to make VerifyBlockSignatureWithKey fail (the statement lists delta, parents and links); it must still not be merged on receipt. exhaustive=false (histories sampled).",
+    },
 }
